@@ -1,18 +1,45 @@
 import Driver.Common
 import Driver.Curve
 import DryocVerif.Model.Encoding
+import DryocVerif.Model.EncodingObj
 import DryocVerif.Spec.NaCl
 import DryocVerif.Spec.Ed25519
 import DryocVerif.Spec.Argon2
 open DryocVerif
 namespace Driver.Serde
-open DryocVerif.Model.Encoding
+open DryocVerif.Model.Encoding DryocVerif.Model.EncodingVec DryocVerif.Model.EncodingObj
 
-/-- how the runner builds the concrete encoding from (format, payload) -/
+/-- how the runner builds the concrete encoding from (format, payload).
+`json` (text deserialiser) and `jsonval` (text → `serde_json::Value` → `from_value`) both carry a JSON ARRAY of
+numbers: `Value::Array` is handed to `visit_seq` exactly like the text array (only with a size hint, which the
+repaired visitors ignore) — `.seq` on both routes (`Model.Encoding.encOfJson _ (.arr _)`).
+`jsonstr` is a JSON STRING through the TEXT deserialiser → `visit_bytes` → `.bytes`.  A JSON string through
+`from_value` (→ `visit_string` → error for every container, `Model.Encoding.deJson_value_str_err`) is NOT exercised
+by the runner: there is no such format name. -/
 def encOf (fmt : String) (payload : Bytes) : Enc :=
   if fmt == "json" || fmt == "jsonval" then .seq payload
   else if fmt == "jsonstr" then .bytes (payload.map (fun b => UInt8.ofNat (97 + b.toNat % 26)))
   else .bytes payload
+
+/-- self-describing (serde_json, any route) or not (bincode) -/
+def sdOf (fmt : String) : Bool := fmt != "bincode"
+
+/-- the runner's `rt`: serialise, deserialise, compare; then `f` on the decoded object -/
+def rtAns {α : Type} [DecidableEq α] (v : α) (r : Outcome α) (f : α → String) : String :=
+  match r with
+  | .ok w => if w = v then f w else "mismatch not-equal-after-roundtrip"
+  | .err => "mismatch deserialise-failed"
+  | .panic => "panic"
+
+/-- a box object (`VecBox`: typed tag / key, `Vec<u8>` data) through the struct codec, then `to_vec` (and, without an
+ephemeral key, `into_vec`, which the runner compares with it) -/
+def boxAns (sd : Bool) (b : Model.SecretBox.Box) (show_ : Bytes → String) : String :=
+  rtAns b (deBoxK .typed .typed .vec sd (serBoxK' .typed .typed .vec sd b)) fun w =>
+    match toBytesRaw w with
+    | .ok v =>
+      if w.epk.isNone && intoVecRaw w != .ok v then "mismatch into_vec-after-roundtrip != to_vec" else show_ v
+    | .err => "err"
+    | .panic => "panic"
 
 def handle (op : String) (args : List String) : Option Ans :=
   match op, args with
@@ -25,33 +52,65 @@ def handle (op : String) (args : List String) : Option Ans :=
     | some n, some p =>
       if cont == "keypair" then
         let h := p.length / 2
-        some ((match tryFromSlice 32 (p.take h), tryFromSlice 32 (p.drop h) with
-               | .ok a, .ok b => okHex (a ++ b)
-               | _, _ => "err"), "n/a")
+        some ((match fromSlices .typed .typed 32 32 (p.take h) (p.drop h) with
+               | .ok (a, b) => okHex (a ++ b)
+               | _ => "err"), "n/a")
       else if cont == "signkeypair" then
         let h := p.length / 3
-        some ((match tryFromSlice 32 (p.take h), tryFromSlice 64 (p.drop h) with
-               | .ok a, .ok b => okHex (a ++ b)
-               | _, _ => "err"), "n/a")
+        some ((match fromSlices .typed .typed 32 64 (p.take h) (p.drop h) with
+               | .ok (a, b) => okHex (a ++ b)
+               | _ => "err"), "n/a")
       else some (outBytes (tryFromSlice n p), "n/a")
     | _, _ => none
   | "serde_bytes", [_cont, fmt, payload] =>
     match ofHex payload with
     | some p => some (outBytes (deHeap (encOf fmt p)), "n/a")
     | none => none
-  | "serde_obj", ty :: _fmt :: rest =>
+  -- MODEL column: the struct-level codecs of `Model/EncodingVec.lean` / `Model/EncodingObj.lean`, executed on the
+  -- object the request describes (built from the Lean specs, as the SPEC column is), mirroring the runner: serialise,
+  -- deserialise, compare, then the same final answer (`to_vec` bytes, keys, derived subkey, stored hash).
+  -- `sealed`: the runner's ephemeral key is random; the codec runs on a box of the same SHAPE (zero-filled).
+  | "serde_obj", ty :: fmt :: rest =>
+    let sd := sdOf fmt
     match ty, hexArgs rest with
-    | "secretbox", some [k, n, m] => some ("n/a", okHex (Spec.NaCl.secretbox k n m))
-    | "box", some [pk, sk, n, m] => some ("n/a", okHex (Spec.NaCl.box pk sk n m))
-    | "sealed", some [_, _, m] => some ("n/a", "ok len=" ++ toString (m.length + 48))
-    | "signed", some [sk, m] => some ("n/a", okHex (Spec.Ed25519.sign (sk.take 32) m ++ m))
-    | "keypair", some [sk] => some ("n/a", okHex (Spec.X25519.x25519Base sk ++ sk))
-    | "signkeypair", some [seed] => some ("n/a", okHex (Spec.Ed25519.publicKey seed ++ seed ++ Spec.Ed25519.publicKey seed))
+    | "secretbox", some [k, n, m] =>
+        let c := Spec.NaCl.secretbox k n m
+        some (boxAns sd ⟨none, c.take 16, c.drop 16⟩ okHex, okHex c)
+    | "box", some [pk, sk, n, m] =>
+        let c := Spec.NaCl.box pk sk n m
+        some (boxAns sd ⟨none, c.take 16, c.drop 16⟩ okHex, okHex c)
+    | "sealed", some [_, _, m] =>
+        some (boxAns sd ⟨some (zeros 32), zeros 16, zeros m.length⟩ (fun v => "ok len=" ++ toString v.length),
+          "ok len=" ++ toString (m.length + 48))
+    | "signed", some [sk, m] =>
+        let sig := Spec.Ed25519.sign (sk.take 32) m
+        some (rtAns (sig, m) (deSignedK .typed .vec sd (serSignedK' .typed .vec sd (sig, m)))
+                (fun w => outBytes (signedToBytesRaw w)), okHex (sig ++ m))
+    | "keypair", some [sk] =>
+        let pk := Spec.X25519.x25519Base sk
+        some (rtAns (pk, sk) (dePairK .typed .typed sd 32 32 (serPairK' .typed .typed sd (pk, sk)))
+                (fun w => okHex (w.1 ++ w.2)), okHex (pk ++ sk))
+    | "signkeypair", some [seed] =>
+        let pk := Spec.Ed25519.publicKey seed
+        some (rtAns (pk, seed ++ pk) (dePairK .typed .typed sd 32 64 (serPairK' .typed .typed sd (pk, seed ++ pk)))
+                (fun w => okHex (w.1 ++ w.2)), okHex (pk ++ seed ++ pk))
     | "session", some [cpk, csk, spk] =>
         let q := Spec.X25519.x25519 csk spk
-        some ("n/a", if q = zeros 32 then "err" else let (rx, tx) := Driver.Curve.specKx q cpk spk; okHex (rx ++ tx))
-    | "kdf", some [key, ctx] => some ("n/a", okHex (Spec.Blake2b.hashSP 32 key (toLE 8 7 ++ zeros 8) (ctx ++ zeros 8) []))
-    | "pwhash", some [pwd, salt] => some ("n/a", okHex (Spec.Argon2.argon2 2 pwd salt [] [] 1 8 1 32))
+        if q = zeros 32 then some ("n/a", "err")
+        else
+          let (rx, tx) := Driver.Curve.specKx q cpk spk
+          some (rtAns (⟨rx, tx⟩ : SessionObj) (deSession sd (serSession sd ⟨rx, tx⟩))
+                  (fun w => okHex (w.rxKey ++ w.txKey)), okHex (rx ++ tx))
+    | "kdf", some [key, ctx] =>
+        let derive := fun (o : KdfObj) =>
+          Spec.Blake2b.hashSP 32 o.mainKey (toLE 8 7 ++ zeros 8) (o.context ++ zeros 8) []
+        some (rtAns (⟨key, ctx⟩ : KdfObj) (deKdf sd (serKdf sd ⟨key, ctx⟩)) (fun w => okHex (derive w)),
+          okHex (derive ⟨key, ctx⟩))
+    | "pwhash", some [pwd, salt] =>
+        let h := Spec.Argon2.argon2 2 pwd salt [] [] 1 8 1 32
+        -- `Config::interactive().with_opslimit(1).with_memlimit(8192)`
+        let p : PwObj := ⟨h, salt, ⟨.argon2id13, 32, 8192, 1, 16⟩⟩
+        some (rtAns p (dePw sd (serPw sd p)) (fun w => okHex (pwIntoParts w).1), okHex h)
     | _, _ => some ("n/a", "n/a")
   | _, _ => none
 
